@@ -391,7 +391,7 @@ def rule_attach(ctx: Ctx):
                       norm_stmt(e.node))
 
 
-def rule_first_attachment(ctx: Ctx):
+def rule_first_attachment(ctx: Ctx, rule: str = "C17.attach"):
     """C17.attach: the recorded pass of a listener is the pass of its FIRST attachment.  Attaching a listener again is a
     no-op on the live machine (its callbacks are de-duplicated by key), so the record must not move either - otherwise the
     clone replays it in a later pass and runs equal-priority callbacks in another order."""
@@ -404,11 +404,11 @@ def rule_first_attachment(ctx: Ctx):
             f = e.term.func
             if isinstance(f, ast.Attribute) and xshow(f.value, evs) == "self._listeners" and f.attr in ("update", "__setitem__"):
                 n += 1
-                rep.violation("C17.attach", e.loc(), "add_listener overwrites the recorded attachment pass of a listener that is already attached "
+                rep.violation(rule, e.loc(), "add_listener overwrites the recorded attachment pass of a listener that is already attached "
                               "(the clone then replays it in a later pass than the original attached it in)", al.key, norm_stmt(e.node))
             elif isinstance(f, ast.Attribute) and xshow(f.value, evs) == "self._listeners" and f.attr == "setdefault":
                 n += 1
-                rep.ok("C17.attach", e.loc(), "add_listener records a pass only for listeners not yet recorded (setdefault)")
+                rep.ok(rule, e.loc(), "add_listener records a pass only for listeners not yet recorded (setdefault)")
         for e in p.of("store"):
             if e.x.get("subscript") and xshow(e.term.value, evs) == "self._listeners":
                 n += 1
@@ -416,8 +416,8 @@ def rule_first_attachment(ctx: Ctx):
                 guarded = any(b.kind == "branch" and b.idx < e.idx and isinstance(b.term, ast.Compare) and isinstance(b.term.ops[0], (ast.In, ast.NotIn))
                               and xshow(b.term.left, evs) == key and xshow(b.term.comparators[0], evs) == "self._listeners"
                               and (b.x["taken"] is isinstance(b.term.ops[0], ast.NotIn)) for b in evs)
-                rep.check(guarded, "C17.attach", e.loc(), "add_listener records a pass only for listeners not yet recorded", al.key, norm_stmt(e.node))
-    rep.floor("C17.attach", "writes of the listener record in add_listener", n, 1)
+                rep.check(guarded, rule, e.loc(), "add_listener records a pass only for listeners not yet recorded", al.key, norm_stmt(e.node))
+    rep.floor(rule, "writes of the listener record in add_listener", n, 1)
 
 
 def rule_no_snapshot(ctx: Ctx):
